@@ -195,8 +195,10 @@ def body_is_simple(ctx, tr):
                 if isinstance(f, ast.Name) and f.id in params and not _internal_callable_param(ctx, n, f.id):
                     return False, 'calls user-supplied callable %s' % f.id
                 if isinstance(f, ast.Name) and f.id == 'next':
-                    if not (n.args and isinstance(n.args[0], ast.Call) and isinstance(n.args[0].func, ast.Name)
-                            and n.args[0].func.id in ('filter', 'iter')):
+                    # next(filter(..)) / next(iter(..)) / next(<generator expression>): a first-match lookup on a fresh local
+                    # iterator (a generator expression over a parameter stream was refused above)
+                    if not (n.args and ((isinstance(n.args[0], ast.Call) and isinstance(n.args[0].func, ast.Name)
+                                         and n.args[0].func.id in ('filter', 'iter')) or isinstance(n.args[0], ast.GeneratorExp))):
                         return False, 'advances an iterator with next()'
                 if isinstance(f, ast.Attribute) and f.attr in IO_ATTRS:
                     return False, 'file/queue/process operation .%s()' % f.attr
